@@ -132,7 +132,7 @@ pub fn check_val(c: &Val) -> Verdict {
     });
     let show = |s: &str| crate::engine::truncate(s, 120);
     // Display preserves digits and scale except where it zero-pads an integer
-    let padded = scale < 0 && -scale <= (cfg.upper as i128).min(20);
+    let padded = scale < 0 && -scale <= cfg.upper as i128;
     // 1. recording serializer: exactly the Display text
     match x.serialize(Rec) {
         Ok(s) => ensure!(v, s == disp, "C17/serialize-not-display", "Serialize emitted {:?} but Display is {:?}", show(&s), show(&disp)),
@@ -353,7 +353,119 @@ pub fn check_text(c: &JsonText) -> Verdict {
             }
             None => {
                 ensure!(v, r.is_err(), "C17/number-out-of-range-accepted", "json_num accepted {} whose scale is outside i64", show(t));
+                ensure!(v, ro.is_err(), "C17/number-out-of-range-accepted-option", "json_num_option returned {:?} for {} whose scale is outside i64", ro.as_ref().ok().map(|w| w.v.as_ref().map(D::of)), show(t));
             }
+        }
+    }
+    v
+}
+
+// ---------------------------------------------------------------- input that is not a number
+
+/// `what`: 0 = JSON document read as BigDecimal, 1 = as the json_num wrapper, 2 = as the json_num_option wrapper,
+/// 3 = the same three through serde_json::Value, 4 = a non-numeric serde value deserializer selected by `doc`
+#[derive(Clone, Debug, Hash, Serialize, Deserialize)]
+pub struct NonNum {
+    pub what: u8,
+    pub doc: String,
+}
+
+pub const NON_NUMERIC_DOCS: &[&str] = &[
+    "true", "false", "null", "[]", "[1]", "[1.5]", "{}", "{\"a\":1}", "{\"v\":true}", "{\"v\":[1]}", "{\"v\":{}}", "{\"v\":\"abc\"}", "{\"v\":\"\"}",
+    "{\"v\":{\"$serde_json::private::Number\":\"abc\"}}", "{\"$serde_json::private::Number\":\"abc\"}", "{\"$serde_json::private::Number\":\"1.5\"}",
+    "{\"$serde_json::private::Number\":7}", "\"abc\"", "\"\"", "\"1.5.5\"", "\"0x10\"", "\"NaN\"", "\"inf\"", "{\"w\":1}", "{\"v\":\"1.5\"}",
+    "{\"v\":null}", "\"1.5\"", "\" 1.5\"", "\"1e\"", "[[]]", "{\"v\":[]}",
+];
+
+pub fn check_nonnum(c: &NonNum) -> Verdict {
+    use serde::de::value::{BoolDeserializer, BytesDeserializer, CharDeserializer, Error as VErr, MapDeserializer, SeqDeserializer, StrDeserializer, UnitDeserializer};
+    use serde::de::IntoDeserializer;
+    let mut v = Verdict::pass(true);
+    let show = |s: &str| crate::engine::truncate(s, 120);
+    // a panic is caught by the engine and reported as a violation; what is checked here is that no garbage comes back
+    // a JSON string holding a numeral, or serde_json's arbitrary-precision number marker holding one (the visitor
+    // implements that protocol on purpose), denotes that numeral
+    let numeral_in_string = |doc: &str| -> Option<(num_bigint::BigInt, i64)> {
+        let marker = doc.strip_prefix("{\"$serde_json::private::Number\":").and_then(|d| d.strip_suffix('}'));
+        if let Some(m) = marker {
+            if is_json_number(m.as_bytes()) {
+                return parse_reference(m.as_bytes());
+            }
+        }
+        let doc = marker.unwrap_or(doc);
+        let inner = doc.strip_prefix('"').and_then(|d| d.strip_suffix('"'))?;
+        parse_reference(inner.as_bytes())
+    };
+    match c.what % 5 {
+        0 => {
+            let r = serde_json::from_str::<BigDecimal>(&c.doc);
+            match (r, numeral_in_string(&c.doc)) {
+                (Ok(y), Some(w)) => ensure!(v, y.as_bigint_and_exponent() == w, "C17/string-not-digit-for-digit", "{} read as {:?}", show(&c.doc), D::of(&y)),
+                (Ok(y), None) => ensure!(v, false, "C17/non-numeric-accepted", "BigDecimal read from {} is {:?}", show(&c.doc), D::of(&y)),
+                (Err(_), Some(_)) => ensure!(v, c.doc.starts_with('{'), "C17/numeric-string-rejected", "the numeric string {} was rejected", show(&c.doc)),
+                (Err(_), None) => {}
+            }
+        }
+        1 => {
+            // json_num: a number is required; a numeric string, if accepted at all, must carry the right digits
+            if let Ok(y) = serde_json::from_str::<WNum>(&c.doc) {
+                // (a derived struct also deserializes from a one-element sequence: [x] is the field x)
+                let inner = c.doc.strip_prefix("{\"v\":").and_then(|d| d.strip_suffix('}')).or_else(|| c.doc.strip_prefix('[').and_then(|d| d.strip_suffix(']'))).unwrap_or("");
+                let w = numeral_in_string(inner).or_else(|| if is_json_number(inner.as_bytes()) { parse_reference(inner.as_bytes()) } else { None });
+                ensure!(v, w.as_ref().map(|w| y.v.as_bigint_and_exponent() == *w) == Some(true), "C17/json_num-non-numeric-accepted", "json_num read {} as {:?}", show(&c.doc), D::of(&y.v));
+            }
+        }
+        2 => match serde_json::from_str::<WOpt>(&c.doc) {
+            Ok(WOpt { v: None }) => ensure!(v, c.doc == "{\"v\":null}", "C17/json_num_option-dropped", "json_num_option read {} as None", show(&c.doc)),
+            Ok(WOpt { v: Some(y) }) => {
+                // (a derived struct also deserializes from a one-element sequence: [x] is the field x)
+                let inner = c.doc.strip_prefix("{\"v\":").and_then(|d| d.strip_suffix('}')).or_else(|| c.doc.strip_prefix('[').and_then(|d| d.strip_suffix(']'))).unwrap_or("");
+                let w = numeral_in_string(inner).or_else(|| if is_json_number(inner.as_bytes()) { parse_reference(inner.as_bytes()) } else { None });
+                ensure!(v, w.as_ref().map(|w| y.as_bigint_and_exponent() == *w) == Some(true), "C17/json_num_option-non-numeric-accepted", "json_num_option read {} as {:?}", show(&c.doc), D::of(&y));
+            }
+            Err(_) => {}
+        },
+        3 => {
+            if let Ok(val) = serde_json::from_str::<serde_json::Value>(&c.doc) {
+                if let Ok(y) = serde_json::from_value::<BigDecimal>(val.clone()) {
+                    ensure!(v, numeral_in_string(&c.doc).map(|w| y.as_bigint_and_exponent() == w) == Some(true), "C17/non-numeric-accepted-value", "BigDecimal read from the Value {} is {:?}", show(&c.doc), D::of(&y));
+                }
+                let is_null_field = c.doc == "{\"v\":null}";
+                // (a derived struct also deserializes from a one-element sequence: [x] is the field x)
+                let inner = c.doc.strip_prefix("{\"v\":").and_then(|d| d.strip_suffix('}')).or_else(|| c.doc.strip_prefix('[').and_then(|d| d.strip_suffix(']'))).unwrap_or("");
+                let w = numeral_in_string(inner).or_else(|| if is_json_number(inner.as_bytes()) { parse_reference(inner.as_bytes()) } else { None }).map(|w| Dec::new(w.0, w.1 as i128));
+                if let Ok(y) = serde_json::from_value::<WNum>(val.clone()) {
+                    ensure!(v, w.as_ref().map(|w| dec_of(&y.v).eq_val(w)) == Some(true), "C17/json_num-non-numeric-accepted-value", "json_num read the Value {} as {:?}", show(&c.doc), D::of(&y.v));
+                }
+                match serde_json::from_value::<WOpt>(val) {
+                    Ok(WOpt { v: None }) => ensure!(v, is_null_field, "C17/json_num_option-dropped-value", "json_num_option read the Value {} as None", show(&c.doc)),
+                    Ok(WOpt { v: Some(y) }) => ensure!(v, w.as_ref().map(|w| dec_of(&y).eq_val(w)) == Some(true), "C17/json_num_option-non-numeric-accepted-value", "json_num_option read the Value {} as {:?}", show(&c.doc), D::of(&y)),
+                    Err(_) => ensure!(v, !is_null_field, "C17/json_num_option-null-rejected-value", "json_num_option rejected the Value {{\"v\":null}}"),
+                }
+            }
+        }
+        _ => {
+            // serde value deserializers that carry no number
+            let k = c.doc.len() % 7;
+            let r: Result<BigDecimal, VErr> = match k {
+                0 => BigDecimal::deserialize(BoolDeserializer::<VErr>::new(true)),
+                1 => BigDecimal::deserialize(UnitDeserializer::<VErr>::new()),
+                2 => BigDecimal::deserialize(CharDeserializer::<VErr>::new('7')),
+                3 => BigDecimal::deserialize(BytesDeserializer::<VErr>::new(b"1.5")),
+                4 => BigDecimal::deserialize(SeqDeserializer::<_, VErr>::new(vec![1u8, 2].into_iter())),
+                5 => BigDecimal::deserialize(MapDeserializer::<_, VErr>::new(vec![(1u8, 2u8)].into_iter())),
+                _ => BigDecimal::deserialize(StrDeserializer::<VErr>::new("not a number")),
+            };
+            if let Ok(y) = r {
+                // a char or bytes that spell a numeral may legitimately be read as that numeral
+                let ok = match k {
+                    2 => dec_of(&y).eq_val(&Dec::from_str_int("7", 0)),
+                    3 => dec_of(&y).eq_val(&Dec::from_str_int("15", 1)),
+                    _ => false,
+                };
+                ensure!(v, ok, "C17/non-numeric-token-accepted", "value deserializer kind {} produced {:?}", k, D::of(&y));
+            }
+            let _ = "x".into_deserializer() as StrDeserializer<VErr>;
         }
     }
     v
@@ -454,6 +566,9 @@ fn val_strategy(max_len: usize) -> BoxedStrategy<Val> {
     (gen::sdigits(max_len), scale).prop_map(|(int, scale)| Val { d: D::new(int, scale) }).boxed()
 }
 
+/// marker added to a generated exponent meaning "choose the exponent so that the scale equals this value"
+const SCALE_TARGET: i64 = 1 << 50;
+
 fn json_number_text(max_digits: usize) -> BoxedStrategy<String> {
     let limit = build_cfg().serde_limit;
     (
@@ -465,6 +580,8 @@ fn json_number_text(max_digits: usize) -> BoxedStrategy<String> {
             3 => (-400i64..=400).prop_map(Some),
             1 => (-3i64..=3).prop_map(move |d| Some(limit + d)),
             1 => (-3i64..=3).prop_map(move |d| Some(-limit + d)),
+            // the SCALE (fraction digits - exponent) at the limit +-3: marked by an offset the renderer recognises
+            2 => (-3i64..=3, any::<bool>()).prop_map(move |(d, neg)| Some(SCALE_TARGET + if neg { -(limit + d) } else { limit + d })),
             1 => prop_oneof![Just(i64::MAX), Just(i64::MIN), Just(i64::MAX - 1), Just(i64::MIN + 1)].prop_map(Some),
             1 => gen::pow2_scale().prop_map(Some),
             1 => (1i64..=4, -150_010i64..=150_010, any::<bool>()).prop_map(|(m, d, neg)| { let v = m * (1i64 << 32) + d; Some(if neg { -v } else { v }) }),
@@ -497,6 +614,9 @@ fn json_number_text(max_digits: usize) -> BoxedStrategy<String> {
                 }
                 s.push_str(&f);
             }
+            // an exponent chosen so that the resulting scale, not the exponent, sits at the limit
+            let frac_len = s.split_once('.').map(|(_, f)| f.len() as i64).unwrap_or(0);
+            let exp = exp.map(|e| if (e as i128 - SCALE_TARGET as i128).abs() < (1 << 40) { frac_len - (e - SCALE_TARGET) } else { e });
             if let Some(h) = huge {
                 s.push(if upper { 'E' } else { 'e' });
                 s.push_str(h);
@@ -598,6 +718,18 @@ pub fn run(ctx: &Ctx) {
         |i| Some(Val { d: D::new((i as i64 / 81 - 20).to_string(), i as i64 % 81 - 40) }),
         check_val,
     );
+    {
+        let mut cases = Vec::new();
+        for what in 0..4u8 {
+            for d in NON_NUMERIC_DOCS {
+                cases.push(NonNum { what, doc: d.to_string() });
+            }
+        }
+        for k in 0..7 {
+            cases.push(NonNum { what: 4, doc: "x".repeat(k) });
+        }
+        ctx.listed("non-numeric-input", "nonnum", "JSON documents that are not numbers (true, null, arrays, maps, foreign maps, the private number marker with a non-number, non-numeral strings, duplicate and missing fields) read as BigDecimal, through json_num and json_num_option, from text and from a Value; serde value deserializers for bool, unit, char, bytes, seq, map, str: an error or the right numeral, never a panic or another number", cases, check_nonnum);
+    }
     let max_len = t.pick(200usize, 400);
     let n = t.pick(150_000u64, 3_000_000);
     ctx.generated("decimals", "val", n, "1..400 digits; scales +-40..60, +-2000, the scale limit +-3 on both sides, anywhere in +-150000", move || val_strategy(max_len), check_val);
